@@ -178,18 +178,55 @@ class Memory:
                 return b, r
         raise MemError('%s outside every live block (%#x)' % (what, addr))
 
+    @staticmethod
+    def _cover(r, off):
+        """the cell of region r that starts before `off` and covers it, or None"""
+        for o, c in r[2].items():
+            if o < off < o + c[1]:
+                return o, c
+        return None
+
     def load(self, addr, n):
         b, r = self.find(addr, n, 'load')
-        c = r[2].get(addr - b)
+        off = addr - b
+        c = r[2].get(off)
         if c is None:
-            raise MemError('load of uninitialised memory at %#x' % addr)
-        if c[1] != n:
-            raise Unsupported('load width %d differs from stored width %d' % (n, c[1]))
-        return c[0]
+            cv = self._cover(r, off)
+            if cv is None:
+                raise MemError('load of uninitialised memory at %#x' % addr)
+            o, c = cv
+            if off + n > o + c[1]:
+                raise Unsupported('load straddles cells')
+            return z3.simplify(z3.Extract(8 * (off - o + n) - 1, 8 * (off - o), c[0]))      # little-endian sub-word
+        if c[1] == n:
+            return c[0]
+        if c[1] > n:
+            return z3.simplify(z3.Extract(8 * n - 1, 0, c[0]))
+        parts, o = [], off
+        while o < off + n:
+            c = r[2].get(o)
+            if c is None or o + c[1] > off + n:
+                raise Unsupported('load of %d bytes over cells that do not tile it' % n)
+            parts.append(c[0])
+            o += c[1]
+        return z3.simplify(z3.Concat(*reversed(parts)))
 
     def store(self, addr, n, v):
         b, r = self.find(addr, n, 'store')
-        r[2][addr - b] = (v, n)
+        off = addr - b
+        c = r[2].get(off)
+        cv = self._cover(r, off) if c is None else None
+        if cv is not None or (c is not None and c[1] > n):
+            o, c = cv if cv is not None else (off, c)
+            if off + n > o + c[1]:
+                raise Unsupported('store straddles cells')
+            lo, hi, w = 8 * (off - o), 8 * (off - o + n), 8 * c[1]
+            parts = ([z3.Extract(w - 1, hi, c[0])] if hi < w else []) + [v] + ([z3.Extract(lo - 1, 0, c[0])] if lo > 0 else [])
+            r[2][o] = (z3.simplify(z3.Concat(*parts)) if len(parts) > 1 else v, c[1])
+            return
+        for o in [o for o in r[2] if off < o < off + n]:
+            del r[2][o]
+        r[2][off] = (v, n)
 
     def move(self, dst, src, n):
         if n == 0:
